@@ -137,3 +137,12 @@ func (k Keeper) ZZLastBatchNonce(ctx sdk.Context, chain types.ChainID) uint64 {
 }
 
 func ZZModuleAddr() sdk.AccAddress { return zzModuleAddr }
+
+// ZZRedatePool rewrites the creation time of every pool entry (native replays of clock-dependent behaviour: the real
+// clock cannot be set, so the entries are dated relative to it).
+func ZZRedatePool(st *ZZState, createdAt uint64) {
+	for _, e := range st.pool {
+		e.CreatedAt = createdAt
+		st.env.K.setUnbatchedSendToExternal(st.env.Ctx, st.chain, e) // same key (id, fee): overwrites
+	}
+}
